@@ -30,19 +30,23 @@ Section Avx2.
     | (k, reg) :: t => rbind (store_row m (i + k) (nth reg regs [])) (fun m' => store_rows regs i t m')
     end.
 
-  (* one iteration of the block loop: 32 loads at src + i + k*R, the network, 32 stores *)
-  Definition do_block (s : list nat) (R i : nat) (m : matrix) : res matrix :=
-    if forallb (fun p => snd p * R + i + 32 <=? length s) net_loads then
-      let regs := run_net 0 net_ops (net_load net_loads (fun k => load32 s (k * R + i))) in
-      store_rows regs i net_stores m
+  (* one iteration of the block loop: 32 loads at src + k*R (src = s.as_ptr() + src_off),
+     the network, 32 stores at out + k*out_stride (out = row out_row of the matrix) *)
+  Definition do_block (s : list nat) (R src_off out_row : nat) (m : matrix) : res matrix :=
+    if forallb (fun p => snd p * R + src_off + 32 <=? length s) net_loads then
+      let regs := run_net 0 net_ops (net_load net_loads (fun k => load32 s (k * R + src_off))) in
+      store_rows regs out_row net_stores m
     else Panic 90.
 
-  (* while i + 32 <= R && 31*R + i + 32 <= length { block; i += 32 } *)
-  Fixpoint block_loop (fuel : nat) (s : list nat) (R i : nat) (m : matrix) : res (nat * matrix) :=
-    if (i + 32 <=? R) && (31 * R + i + 32 <=? length s) then
+  (* while <blk_cond i src_stride length> { block; out = out.add(blk_out_step * out_stride);
+     src = src.add(blk_src_step); i += blk_i_step }   -- condition and steps are
+     translated from avx2.rs (GenStripeNet.v) *)
+  Fixpoint block_loop (fuel : nat) (s : list nat) (R i src_off out_row : nat) (m : matrix) : res (nat * matrix) :=
+    if blk_cond i R (length s) then
       match fuel with
       | O => OutOfFuel
-      | S f => rbind (do_block s R i m) (fun m' => block_loop f s R (i + 32) m')
+      | S f => rbind (do_block s R src_off out_row m) (fun m' =>
+                 block_loop f s R (i + blk_i_step) (src_off + blk_src_step) (out_row + blk_out_step) m')
       end
     else Ok (i, m).
 
@@ -60,7 +64,7 @@ Section Avx2.
     else if length m =? 0 then Panic 1           (* matrix[0].as_mut_ptr() *)
     else if negb (length m =? R) then Panic 92
     else
-      rbind (block_loop R s R 0 m) (fun im =>
+      rbind (block_loop R s R 0 0 0 m) (fun im =>
       rbind (tail_rows s R (fst im) (snd im)) (fun m2 =>
       rbind (fill_tail K 32 R len m2) (fun m3 =>
       s_new 32 m3 len))).
